@@ -1571,6 +1571,14 @@ impl Monitors {
             .filter_map(|e| e.split("worker ").nth(1).and_then(|x| x.split(' ').next()).and_then(|x| x.parse().ok()))
             .collect();
         self.drifted_workers.retain(|w| still_off.contains(w) && core.workers.iter().any(|x| x.id.as_num() == *w));
+        // the same defect without a visible overbooking at this step boundary: the message that
+        // reported the backlog start also carried rejects/finishes, the saturated subtraction
+        // happened in between, and what is left is a server that counts more free than there is
+        if let Some(w) = prefilled_start_from {
+            if errors_now.iter().any(|e| e.starts_with("accounting") && e.contains(&format!("worker {w} "))) && self.drifted_workers.insert(w) {
+                self.count("placement.drift_after_backlog_start", 1);
+            }
+        }
         for e in errors_now {
             if e.starts_with("overbooked") {
                 let ew: Option<Wid> = e.split("worker ").nth(1).and_then(|x| x.split(' ').next()).and_then(|x| x.parse().ok());
